@@ -193,8 +193,14 @@ pub fn set_pthread(task: i32, th: libc::pthread_t) {
 }
 
 pub fn task_of_pthread(th: libc::pthread_t) -> Option<i32> {
+    // pthread_t values are reused once a thread has been joined: take the latest task with it
     let s = st();
-    (0..s.ntasks).find(|&i| s.tasks[i].used && s.tasks[i].pthread == th).map(|i| i as i32)
+    (0..s.ntasks).rev().find(|&i| s.tasks[i].used && s.tasks[i].pthread == th).map(|i| i as i32)
+}
+
+/// the thread has been joined: its pthread_t may be handed out again
+pub fn forget_pthread(task: i32) {
+    st().tasks[task as usize].pthread = 0;
 }
 
 /// first thing a new thread does: wait until it is scheduled
